@@ -478,8 +478,8 @@ NO_SLOTS_CELLS = ("limited_api", "limited_api_cpp", "no_type_slots", "no_interna
 NO_KW_CELLS = ("binding_false_noopt",)
 NO_PICKLE_CELLS = ("binding_false_noopt",)
 NO_SLOTS_STATIC_CELLS = ("only_no_type_slots", "no_internals_at_all")       # CYTHON_USE_TYPE_SLOTS=0 with static type objects
-WEAKLIST_FIXED = False        # set True after proposed_fixes/C39-weakref_slot_ignored_without_type_slots_and_type_specs.diff
-AB_NEXTREF_FIXED = False      # set True after proposed_fixes/C39-avoid_borrowed_refs_dict_next_inverted_null_check.diff
+WEAKLIST_FIXED = True         # set True after proposed_fixes/C39-weakref_slot_ignored_without_type_slots_and_type_specs.diff
+AB_NEXTREF_FIXED = True       # set True after proposed_fixes/C39-avoid_borrowed_refs_dict_next_inverted_null_check.diff
 NO_FINALIZE_CELLS = ("limited_api", "limited_api_cpp", "no_freelists_etc", "only_no_tp_finalize")     # CYTHON_USE_TP_FINALIZE == 0
 
 
